@@ -218,3 +218,12 @@ func (l *Link) LogStrings() []string {
 	}
 	return out
 }
+
+// Counts returns how many calls of each kind ("S.send", ...) were made.
+func (l *Link) Counts() map[string]int {
+	out := map[string]int{}
+	for k, v := range l.count {
+		out[k] = v
+	}
+	return out
+}
